@@ -28,7 +28,7 @@ from __future__ import annotations
 
 import ast
 
-from ..astutil import attr_chain, callee_name, calls, handler_types, is_name, is_self_attr, text, unwrap_await
+from ..astutil import attr_chain, callee_name, calls, handler_types, is_name, is_self_attr, names_in, text, unwrap_await
 from ..core import Result
 from ..model import AnchorMissing, Repo, walk_no_nested
 
@@ -58,7 +58,11 @@ def run(repo: Repo) -> Result:
     g_ok = any(
         (isinstance(st, (ast.Assign, ast.AnnAssign)))
         and is_self_attr(st.targets[0] if isinstance(st, ast.Assign) else st.target, "globals")
-        and text(st.value) in ("globals or {}", "globals")
+        and (
+            is_name(st.value, "globals")
+            or (isinstance(st.value, ast.BoolOp) and isinstance(st.value.op, ast.Or) and is_name(st.value.values[0], "globals") and all(isinstance(x, ast.Dict) and not x.keys for x in st.value.values[1:]))
+            or (isinstance(st.value, ast.IfExp) and is_name(st.value.body, "globals") and isinstance(st.value.orelse, ast.Dict) and not st.value.orelse.keys and names_in(st.value.test) == {"globals"})
+        )
         for st in walk_no_nested(init.node)
     )
     if not g_ok:
@@ -299,7 +303,7 @@ def selftest(repo: Repo):
         v("pop-outside-finally", C, "        try:\n            yield self\n        finally:\n            if template:\n                self.template = _template\n            self.scope.pop()", "        yield self\n        if template:\n            self.template = _template\n        self.scope.pop()", "C14-PAIR"),
         v("getitem-last-wins", "liquid/utils/chain_map.py", "        for mapping in self._maps:\n            try:\n                return mapping[key]", "        for mapping in reversed(self._maps):\n            try:\n                return mapping[key]", "C14-MAP"),
         v("with-tag-assigns", "liquid/extra/tags/_with.py", "        with context.extend({a.name: a.value.evaluate(context) for a in self.args}):\n            return self.block.render(context, buffer)", "        for a in self.args:\n            context.assign(a.name, a.value.evaluate(context))\n        return self.block.render(context, buffer)", "C14-BLOCK"),
-        v("extend-not-with", "liquid/builtin/tags/tablerow_tag.py", "        with context.extend(namespace):\n            for item in tablerow:", "        context.extend(namespace)\n        if True:\n            for item in tablerow:", "C14-", count=2),
+        v("extend-not-with", "liquid/builtin/tags/tablerow_tag.py", "        with context.iterations(length), context.extend(namespace):\n            for item in tablerow:", "        context.extend(namespace)\n        with context.iterations(length):\n            for item in tablerow:", "C14-", count=2),
         v("include-copies", "liquid/builtin/tags/include_tag.py", "            else:\n                template.render_with_context(context, buffer, partial=True)\n\n        return True", "            else:\n                template.render_with_context(context.copy({}), buffer, partial=True)\n\n        return True", "C14-INCLUDE"),
         v("get-drops-indexerror", C, "        try:\n            obj = self.scope[root]\n        except (KeyError, TypeError, IndexError):\n            if default == UNDEFINED:\n                hint = f\"{root!r} is undefined\"\n                return self.env.undefined(root, hint=hint, token=token)\n            return default\n\n        for i, segment in enumerate(it):\n            try:\n                obj = self.get_item(obj, segment)\n            except (KeyError, TypeError):", "        try:\n            obj = self.scope[root]\n        except (KeyError, TypeError, IndexError):\n            if default == UNDEFINED:\n                hint = f\"{root!r} is undefined\"\n                return self.env.undefined(root, hint=hint, token=token)\n            return default\n\n        for i, segment in enumerate(it):\n            try:\n                obj = self.get_item(obj, segment)\n            except (KeyError,):", "C14-UNDEF"),
         v("capture-writes-scope", "liquid/builtin/tags/capture_tag.py", "            context.assign(self.name, buf.getvalue())", "            context.scope.push({self.name: buf.getvalue()})", "C14-"),
